@@ -68,10 +68,22 @@ kb = json.loads(base_text("known_findings.json") or b'{"findings":[]}')["finding
 kv = json.load(open(os.path.join(V, "known_findings.json")))
 have = {(f["property"], f["id"], f["signature"]) for f in kv["findings"]}
 base_have = {(f["property"], f["id"], f["signature"]) for f in kb}
+base_by = {(f["property"], f["id"]): f for f in kb}
 for f in kp:
     key = (f["property"], f["id"], f["signature"])
+    if f["property"] == pid and (f["property"], f["id"]) in base_by and f != base_by[(f["property"], f["id"])]:
+        # the package changed one of its own entries (status -> fixed, narrower text, new input)
+        for i, g in enumerate(kv["findings"]):
+            if (g["property"], g["id"]) == (f["property"], f["id"]):
+                kv["findings"][i] = f
+                print("finding ~", f["property"], f["id"], f["status"], f.get("commit"))
+        continue
     if key in base_have or key in have:
         continue
     kv["findings"].append(f)
     print("finding +", f["property"], f["id"], f["status"], f["signature"])
+pkg_ids = {(f["property"], f["id"]) for f in kp}
+for f in kb:
+    if f["property"] == pid and (f["property"], f["id"]) not in pkg_ids:
+        print("finding - (package removed it; NOT removed here, decide by hand):", f["property"], f["id"])
 json.dump(kv, open(os.path.join(V, "known_findings.json"), "w"), indent=1)
